@@ -107,14 +107,25 @@ structure ClientNet where
   ip16 : List UInt8         -- `ipnet.IP.To16()`
   ipLen4 : Bool             -- `len(ipnet.IP) == 4`
   maskOnes : Nat            -- `ipnet.Mask.Size()` (0 for a nil mask)
+  maskBits : Nat := 128     -- length of the mask in bits (32 or 128)
+  maskValid : Bool := true  -- `false` when `net.CIDRMask` returned nil (prefix length > bits)
 deriving Repr
 
 def isIPv4 (c : ClientNet) : Bool := c.ipLen4 || c.ip16.take 12 = Net.v4Prefix
 
+/-- `ipnet.IP.Mask(ipnet.Mask)` rendered as 16 bytes; the unmasked address when `Mask` returns nil
+(length mismatch between address and mask) -/
+def maskedClientIP (c : ClientNet) : List UInt8 :=
+  if ¬ c.maskValid then c.ip16
+  else if c.maskBits = 32 then
+    if c.ipLen4 ∨ c.ip16.take 12 = Net.v4Prefix then Net.maskIP c.ip16 (c.maskOnes + 96) else c.ip16
+  else if c.ipLen4 then c.ip16
+  else Net.maskIP c.ip16 c.maskOnes
+
 /-- RocksDB: `SeekForPrev` on `marker ++ map ++ ip ++ [masklen]` over the whole database -/
 def getLocationRdb (s : Store) (c : ClientNet) (mapID : Bytes) : Res (Option Bytes × Nat) :=
   let req := (c.maskOnes + (if isIPv4 c then 96 else 0)) % 256
-  let key := Generated.dnsdata_RangePointKeyMarker ++ mapID ++ c.ip16 ++ [UInt8.ofNat req]
+  let key := Generated.dnsdata_RangePointKeyMarker ++ mapID ++ maskedClientIP c ++ [UInt8.ofNat req]
   match s.seekForPrev key with
   | none => .ok (none, 0)
   | some (fk, vals) =>
@@ -192,7 +203,8 @@ def to16 (a : List UInt8) : List UInt8 :=
 def ecsLocation (b : Backend) (s : Store) (q : Bytes) (e : Ecs) : Res (Option Location × Nat) :=
   let bits := if e.family = 2 then 128 else 32
   let ones := if e.sourceMask ≤ bits then e.sourceMask else 0    -- CIDRMask returns nil when ones > bits
-  let c : ClientNet := { ip16 := to16 e.addr, ipLen4 := e.addr.length = 4, maskOnes := ones }
+  let c : ClientNet := { ip16 := to16 e.addr, ipLen4 := e.addr.length = 4, maskOnes := ones,
+                         maskBits := bits, maskValid := e.sourceMask ≤ bits }
   match findLocation b s q [0, 0x38] c with
   | .err => .err
   | .panic => .panic
@@ -206,7 +218,8 @@ def ecsLocation (b : Backend) (s : Store) (q : Bytes) (e : Ecs) : Res (Option Lo
 /-- `ResolverLocation` -/
 def resolverLocation (b : Backend) (s : Store) (q : Bytes) (ip16 : List UInt8) : Res Location :=
   let v4 := ip16.take 12 = Net.v4Prefix
-  findLocation b s q [0, 0x4d] { ip16 := ip16, ipLen4 := false, maskOnes := if v4 then 32 else 128 }
+  findLocation b s q [0, 0x4d] { ip16 := ip16, ipLen4 := false, maskOnes := if v4 then 32 else 128,
+                                 maskBits := if v4 then 32 else 128 }
 
 /-- `FindLocation`: `(scope to echo if the query had ECS, location)`. The Go code recovers panics
 here and turns them into an error. -/
